@@ -1058,6 +1058,116 @@ def copy_job(lengths):
     return path
 
 
+def alias_job(n, L, how):
+    """no aliasing between a ragged array and (a) a rectangular 2-D ndarray it was built from, (b) another ragged array it was
+    sliced from / derived from by an operator: a write on one side must not show on the other"""
+    def scenario(ra, mk, vals, v, concrete):
+        """returns (list of (label, untouched object cells, expected cells))"""
+        grid = [[vals[i * L + j] for j in range(L)] for i in range(n)]
+        checks = []
+        if how == 'from-2d-ndarray':
+            x = mk(grid)
+            r = ra.RaggedArray(x)
+            r[n - 1, 0] = v
+            checks.append(('caller-2d-array-unaffected-by-a-write-to-the-ragged-array', x, [c for row in grid for c in row]))
+            x2 = mk(grid)
+            r2 = ra.RaggedArray(x2)
+            x2[0, L - 1] = v
+            checks.append(('ragged-array-unaffected-by-a-later-write-to-the-caller-array', r2._data, [c for row in grid for c in row]))
+            checks.append(('row-view-unaffected-by-a-later-write-to-the-caller-array', r2[0], grid[0]))
+        else:
+            a = ra.RaggedArray(mk([c for row in grid for c in row]), lengths=[L] * n)      # equal-length rows
+            b = a + 0 if how == 'slice-of-operator-result' else a
+            c = b[0:max(1, n - 1)] if how != 'full-slice' else b[:]
+            c[0, 0] = v
+            checks.append(('source-array-unaffected-by-a-write-to-its-row-slice', b._data, [c_ for row in grid for c_ in row]))
+            checks.append(('source-rows-unaffected-by-a-write-to-its-row-slice', b[0], grid[0]))
+        return checks
+
+    def path(ctx):
+        ra = RA()
+        vals = [core.fresh_int('x') for _ in range(n * L)]
+        v = core.fresh_int('v')
+        checks = scenario(ra, lambda g: funcs.np_array(g, dtype=int), vals, v, False)
+        obs = [(lab, conj([p == q for p, q in zip(flat_cells(obj), exp)]) if len(flat_cells(obj)) == len(exp) else False)
+               for lab, obj, exp in checks]
+
+        def witness(model):
+            xv = [int(ev(model, t)) for t in vals]
+            vv = int(ev(model, v))
+            while vv in xv:
+                vv += 1
+            with core.concrete_mode():
+                cks = scenario(ra, lambda g: np.array(g, dtype=int), xv, vv, True)
+                bad = [lab for lab, obj, exp in cks if [int(t) for t in flat_cells(obj)] != [int(t) for t in exp]]
+            return {'inputs': {'rows': n, 'row_length': L, 'scenario': how, 'values': xv, 'written': vv}, 'out': None, 'violated': bad,
+                    'skip_compare': True, 'signature': 'aliasing:' + how}
+        return PathOut(obs, {}, witness, desc='aliasing %s %dx%d' % (how, n, L))
+    return path
+
+
+def index_args_job(lengths, write=False):
+    """2-D fancy indexing with integer NDARRAY index arguments (negative entries included): the result equals the list-of-rows
+    model and the caller's index arrays are left as they were (they may be re-used on another array)"""
+    lengths = list(lengths)
+    n = len(lengths)
+    N = sum(lengths)
+    pairs = [(i, j) for i in range(n) for j in range(lengths[i])]
+    neg = [(i - n, j - lengths[i]) for i, j in pairs]
+    mixed = [(i - n if k % 2 else i, j - lengths[i] if k % 3 else j) for k, (i, j) in enumerate(pairs)]
+    cases = [pairs[::-1], neg, mixed, [neg[-1]], [pairs[0], neg[0]]]
+
+    def run(ra, mk, mkidx, vals, v):
+        res = []
+        for case in cases:
+            a, rows = build_with(ra, mk, lengths, vals)
+            r_idx, c_idx = mkidx([p[0] for p in case]), mkidx([p[1] for p in case])
+            r0, c0 = [p[0] for p in case], [p[1] for p in case]
+            exp = [rows[i][j] for i, j in case]
+            if write:
+                a[(r_idx, c_idx)] = v
+                got = None
+            else:
+                got = flat_cells(a[(r_idx, c_idx)])
+            res.append((case, got, exp, flat_cells(r_idx), r0, flat_cells(c_idx), c0))
+        return res
+
+    def build_with(ra, mk, lengths_, vals):
+        rows, k = [], 0
+        for ln in lengths_:
+            rows.append([vals[k + j] for j in range(ln)])
+            k += ln
+        return ra.RaggedArray([mk(r) for r in rows]), rows
+
+    def path(ctx):
+        ra = RA()
+        vals = [core.fresh_int('e') for _ in range(N)]
+        v = core.fresh_int('v')
+        res = run(ra, lambda r: funcs.np_array(list(r), dtype=int), lambda ix: SArr.from_typed(np.array(ix, dtype=np.int64)), vals, v)
+        obs = []
+        if not write:
+            obs.append(('paired index arrays select the addressed elements',
+                        conj([conj([x == y for x, y in zip(got, exp)]) if len(got) == len(exp) else False for _, got, exp, *_ in res])))
+        obs.append(('index-arrays-passed-by-the-caller-are-not-modified',
+                    all([int(x) for x in ri] == r0 and [int(x) for x in ci] == c0 for _, _, _, ri, r0, ci, c0 in res)))
+
+        def witness(model):
+            xv = [int(ev(model, t)) for t in vals]
+            vv = int(ev(model, v))
+            with core.concrete_mode():
+                r2 = run(ra, lambda r: np.array(list(r), dtype=int), lambda ix: np.array(ix, dtype=np.int64), xv, vv)
+            bad = []
+            for case, got, exp, ri, r0, ci, c0 in r2:
+                if got is not None and [int(x) for x in got] != [int(x) for x in exp]:
+                    bad.append('wrong elements for index arrays %s' % (case,))
+                if [int(x) for x in ri] != r0 or [int(x) for x in ci] != c0:
+                    bad.append('index arrays modified: rows %s -> %s, cols %s -> %s' % (r0, [int(x) for x in ri], c0, [int(x) for x in ci]))
+            return {'inputs': {'lengths': lengths, 'write': write}, 'out': None, 'violated': bad[:3], 'skip_compare': True,
+                    'signature': 'fancy-index:%s' % ('index-arrays-modified' if any('modified' in b for b in bad) else 'wrong-elements')}
+        return PathOut(obs, {}, witness, desc='ndarray index arguments lengths=%s %s' % (lengths, 'write' if write else 'read'))
+    return path
+
+
 def length_vectors(maxrows, L):
     out = []
     for n in range(1, maxrows + 1):
